@@ -652,7 +652,7 @@ class OPENQASMVisitor(Visitor):
         else:
             locations = [
                 CircuitLocation(i)
-                for i in range(self.qubit_regs[0][1])
+                for i in self.convert_qubit_ids_to_indices(qlist)
             ]
             for location in locations:
                 op = Operation(Reset(), location, params)
